@@ -210,6 +210,16 @@ pub fn driver_dup(dir: &str) {
         store.verif_hooks().install(None);
         ack(&mut n, json!({"op": what, "effects": effects}));
     }
+    // a different frame imported under a stored id (f2 moves to another topic and context): one
+    // all-or-nothing step - at no crash point is the id without a frame (seed C04-r7: remove, then
+    // store, in two commits)
+    let moved = Frame::builder("moved", ctx.id).id(f2.id).build();
+    store.insert_frame(&moved).unwrap();
+    ack(&mut n, json!({"op": "import-over", "effects": [{"ins": fj(&moved)}]}));
+    // an import the store refuses (NUL in the topic) under a stored id leaves that frame alone
+    let bad = Frame::builder("a\0b", ZERO_CONTEXT).id(moved.id).build();
+    let _ = store.insert_frame(&bad);
+    ack(&mut n, json!({"op": "import-refused", "effects": []}));
     let f3 = store.append(Frame::builder("ab", ZERO_CONTEXT).build()).unwrap();
     ack(&mut n, json!({"op": "append", "effects": [{"ins": fj(&f3)}]}));
     ack(&mut n, json!({"op": "end", "effects": []}));
@@ -357,7 +367,7 @@ pub fn run(tier: &str, report: &mut crate::common::Report) {
     report.cov("second_generation", json!({"kill_reopen_retry_runs": stats["second_generation_runs"], "images": g2, "rule": "process-kill images taken inside an import / remove are reopened by a second traced process which sends the same request again and acknowledges it; kill and power-loss images after that acknowledgement (the unsynced journal bytes of the first process are still unsynced) must contain the operation"}));
     report.cov("syscalls_interpreted", stats["syscalls_interpreted"].clone());
     report.cov("histories", v["histories"].clone());
-    report.cov("rule", json!("for each scripted history (H1 store API, H2 same with 12 KiB metas, H3 through the HTTP routes with bodies, H4 with forced memtable flushes, H5 a duplicate remove / import arriving while the first one is between commit and fsync) the driver is traced with strace; for EVERY prefix of the store-directory mutations after the first acknowledged operation one process-kill image, and wherever the journal holds unsynced bytes one power-loss image plus torn tails of the last unsynced journal write, are materialised and opened by a fresh process; distinct_nontrivial = distinct recovered frame sets"));
+    report.cov("rule", json!("for each scripted history (H1 store API, H2 same with 12 KiB metas, H3 through the HTTP routes with bodies, H4 with forced memtable flushes, H5 a duplicate remove / import arriving while the first one is between commit and fsync, then a replacing and a refused import under a stored id) the driver is traced with strace; for EVERY prefix of the store-directory mutations after the first acknowledged operation one process-kill image, and wherever the journal holds unsynced bytes one power-loss image plus torn tails of the last unsynced journal write, are materialised and opened by a fresh process; distinct_nontrivial = distinct recovered frame sets"));
     report.cov("samples", v["samples"].clone());
     report.cov("exhaustive", json!(true));
     report.cov("interpreter_self_check", json!("the interpreted final file-system state is compared byte for byte with the real directory after each traced run"));
